@@ -34,14 +34,14 @@ RealOf(p) ==
     uq |-> {[t |-> p.uq[i].t, ids |-> p.uq[i].ids] : i \in 1..Len(p.uq)},
     sinfo |-> p.sinfo, bits |-> [v \in Users |-> SeqToSet(p.bits[v])],
     awardQ |-> p.awardQ, burnQ |-> p.burnQ, proposer |-> p.proposer, pkrel |-> SeqToSet(p.pkrel),
-    dAuth |-> p.dAuth, dRest |-> p.dRest, par |-> [maxVals |-> p.maxVals, minStake |-> p.minStake],
+    dAuth |-> p.dAuth, dRest |-> p.dRest, accex |-> p.accex, par |-> [maxVals |-> p.maxVals, minStake |-> p.minStake],
     denomAlt |-> p.denomAlt, posmAcc |-> p.posmAcc ]
 
 Adopt(pred, r) ==
   [pred EXCEPT !.bal = r.bal, !.supply = r.supply, !.val = r.val, !.pidx = r.pidx, !.prev = r.prev,
                !.prevTotal = r.prevTotal, !.uq = r.uq, !.sinfo = r.sinfo, !.bits = r.bits,
                !.awardQ = r.awardQ, !.burnQ = r.burnQ, !.proposer = r.proposer, !.pkrel = r.pkrel,
-               !.dAuth = r.dAuth, !.dRest = r.dRest, !.par = r.par, !.denomAlt = r.denomAlt, !.posmAcc = r.posmAcc]
+               !.dAuth = r.dAuth, !.dRest = r.dRest, !.accex = r.accex, !.par = r.par, !.denomAlt = r.denomAlt, !.posmAcc = r.posmAcc]
 
 Obs(s) == [f \in ObsFields |-> s[f]]
 
@@ -55,15 +55,18 @@ RejectedNoTrace(pre, post, a, res) ==
   \* did not: paying the zero fee may still rewrite account records, so only then the auth digest is exempt)
   (a.a = "Tx" /\ res.class = "rej_pre") =>
      Obs(post) = Obs(pre) /\ (a.fee > 0 => post.dAuth = pre.dAuth) /\ post.dRest = pre.dRest
+     /\ \A i \in DOMAIN post.accex : (i # FEE \/ a.fee > 0) => post.accex[i] = pre.accex[i]
 RejectedOnlyFee(pre, post, a, res) ==
   (a.a = "Tx" /\ res.class = "rej_post") =>
      /\ \A f \in ObsFields \ {"bal"} : post[f] = pre[f]
      /\ post.bal = [pre.bal EXCEPT ![a.from] = @ - a.fee, ![FEE] = @ + a.fee]
      /\ post.dRest = pre.dRest
+     \* no account record appears or disappears (but the fee collector's, which the first fee creates)
+     /\ \A i \in DOMAIN post.accex : i # FEE => post.accex[i] = pre.accex[i]
 \* C11: CheckTx, Simulate and Query never change state (byte-for-byte digests of every store)
 ReadOnlyNoTrace(pre, post, a, res) ==
   a.a \in {"CheckTx", "Simulate", "Query"} =>
-     Obs(post) = Obs(pre) /\ post.dAuth = pre.dAuth /\ post.dRest = pre.dRest
+     Obs(post) = Obs(pre) /\ post.dAuth = pre.dAuth /\ post.dRest = pre.dRest /\ post.accex = pre.accex
 
 \* C06: status changes only along the legal edges
 LegalTransitions(pre, post, a, res) ==
